@@ -384,12 +384,22 @@ def coq_eval(pid, body, timeout=600):
 # known findings, violations, evidence
 # --------------------------------------------------------------------------
 
-def load_known():
-    p = os.path.join(VERIF, "known_findings.json")
-    try:
-        return json.load(open(p))
-    except FileNotFoundError:
-        return {"findings": [], "fixed": []}
+def load_known(pid=None):
+    """known_findings/<ID>.json: {"property": ID, "findings": [{"key":..., "what":...}], "fixed": ["fixed: property=<id> <commit> <what failed>", ...]}.
+    One file per property (so they can be maintained independently); never written by a check."""
+    out = {"findings": [], "fixed": []}
+    d = os.path.join(VERIF, "known_findings")
+    if not os.path.isdir(d):
+        return out
+    for f in sorted(os.listdir(d)):
+        if not f.endswith(".json") or (pid and f != pid + ".json"):
+            continue
+        j = json.load(open(os.path.join(d, f)))
+        for k in j.get("findings", []):
+            k.setdefault("property", j.get("property", f[:-5]))
+            out["findings"].append(k)
+        out["fixed"] += j.get("fixed", [])
+    return out
 
 
 class Ctx:
@@ -409,7 +419,7 @@ class Ctx:
         self.interp = None
         self.work = os.path.join(CACHE, "work", pid)
         os.makedirs(self.work, exist_ok=True)
-        self.known = [k for k in load_known().get("findings", []) if k.get("property") == pid]
+        self.known = [k for k in load_known(pid).get("findings", []) if k.get("property") == pid]
 
     @property
     def thorough(self):
